@@ -11,7 +11,11 @@ package sherpa
 //@   property C18 C02
 //@   safety
 //@   requires s != nil && s.configuration != nil && w != nil && resp != nil && resp.Body != nil && rlog != nil
-//@   modifies ghost(w).started, ghost(w).status, gvar unflushed, gvar evBroken, gvar streamMode, ghost remaining, ghost backing, SimpleRingBuffer.data
+//@   modifies ghost(w).started, ghost(w).status, gvar unflushed, gvar wBytes, gvar rBytes, gvar evBroken, gvar streamMode, ghost remaining, ghost backing, SimpleRingBuffer.data
+// C18 / C02: a relay that ends without an error and with the client still there has written exactly the bytes it read
+//@   loop 1 invariant state.clientDisconnected || wBytes - old(wBytes) == rBytes - old(rBytes)
+//@   at return 2 assert state.clientDisconnected || wBytes - old(wBytes) == rBytes - old(rBytes)
+//@   at return 3 assert err == nil ==> state.clientDisconnected || wBytes - old(wBytes) == rBytes - old(rBytes)
 //@   loop 1 invariant (old(ghost(w).started) ==> ghost(w).started) && (old(evBroken) ==> evBroken) && state != nil && fresh(state) && rc != nil && state.lastChunkBuffer != nil && fresh(state.lastChunkBuffer) && rbOK(state.lastChunkBuffer)
 //@   loop 1 invariant state.isStreaming ==> unflushed == 0 || unflushed == old(unflushed) || evBroken
 //@   loop 1 invariant state.isStreaming == loopentry(state.isStreaming) && state.isStreaming == streamMode
@@ -24,7 +28,8 @@ package sherpa
 //@ func (s *Service) performTimedRead
 //@   property C18
 //@   trusted
-//@   modifies state.readCount, state.lastReadTime, ghost remaining
+//@   modifies state.readCount, state.lastReadTime, ghost remaining, gvar rBytes
+//@   records rBytes = old(rBytes) + ite(res0 != nil, res0.n, 0)
 //@   ensures res0 != nil ==> 0 <= res0.n && res0.n <= len(buffer) && !errorsAs(res0.err, "*core.ResponseStartedError") && !errorsIs(res0.err, core.ErrCircuitOpen)
 //@   ensures !errorsAs(res1, "*core.ResponseStartedError") && !errorsIs(res1, core.ErrCircuitOpen)
 
@@ -74,22 +79,27 @@ package sherpa
 //@   property C18
 //@   safety
 //@   requires s != nil && w != nil && rc != nil && state != nil && rlog != nil && rbOK(state.lastChunkBuffer)
-//@   modifies ghost(w).started, ghost(w).status, gvar unflushed, gvar evBroken, state.totalBytes, state.bytesAfterDisconnect, SimpleRingBuffer.data
+//@   modifies ghost(w).started, ghost(w).status, gvar unflushed, gvar wBytes, gvar evBroken, state.totalBytes, state.bytesAfterDisconnect, SimpleRingBuffer.data
 //@   ensures old(evBroken) ==> evBroken
 //@   ensures state.isStreaming && res == nil ==> unflushed == 0 || unflushed == old(unflushed) || evBroken
 //@   ensures rbOK(state.lastChunkBuffer)
 //@   ensures old(ghost(w).started) ==> ghost(w).started
 //@   ensures !errorsAs(res, "*core.ResponseStartedError") && !errorsIs(res, core.ErrCircuitOpen)
+// the relay step: with the client still there, a write that does not fail hands on the whole chunk
+//@   ensures state.clientDisconnected == old(state.clientDisconnected) && wBytes >= old(wBytes)
+//@   ensures !state.clientDisconnected && res == nil ==> wBytes == old(wBytes) + len(data)
 
 //@ func (s *Service) processReadResult
 //@   property C18
 //@   safety
 //@   requires s != nil && result != nil && w != nil && rc != nil && state != nil && rlog != nil && result.n >= 0 && result.n <= len(buffer) && rbOK(state.lastChunkBuffer) && !errorsAs(result.err, "*core.ResponseStartedError") && !errorsIs(result.err, core.ErrCircuitOpen)
-//@   modifies ghost(w).started, ghost(w).status, gvar unflushed, gvar evBroken, state.totalBytes, state.bytesAfterDisconnect, SimpleRingBuffer.data
+//@   modifies ghost(w).started, ghost(w).status, gvar unflushed, gvar wBytes, gvar evBroken, state.totalBytes, state.bytesAfterDisconnect, SimpleRingBuffer.data
 //@   ensures old(evBroken) ==> evBroken
 //@   ensures state.isStreaming && res1 == nil ==> unflushed == 0 || unflushed == old(unflushed) || evBroken
 //@   ensures rbOK(state.lastChunkBuffer)
 //@   ensures old(ghost(w).started) ==> ghost(w).started
+//@   ensures state.clientDisconnected == old(state.clientDisconnected) && wBytes >= old(wBytes)
+//@   ensures !state.clientDisconnected && res1 == nil ==> wBytes == old(wBytes) + result.n
 //@   ensures !errorsAs(res1, "*core.ResponseStartedError") && !errorsIs(res1, core.ErrCircuitOpen)
 
 // the last-bytes ring buffer (feeds metrics extraction, C20): slice bounds hold for every write, the buffer never grows
